@@ -1,12 +1,306 @@
-//! C19: harness module (stub — not built yet)
-#![allow(dead_code, unused_imports, unused_variables)]
+//! C19: topology views of module graphs built with the real `des::net` builder API.
+//!
+//! Script lines (build part as in c08):
+//!   mod m<i>
+//!   gate g<j> mod=m<i>
+//!   connect g<a> g<b>
+//!   topo                       Globals::topology(): nodes, edges, connected, bidirectional
+//!   spanned m<i>               Topology::spanned(m<i>): same observations
+//!   dijkstra m<i>              Globals::topology().dijkstra(m<i>)
+//!   sdijkstra m<r> m<i>        Topology::spanned(m<r>).dijkstra(m<i>)
+//!   filter m<a>,m<b>,…|none    topology().filter_nodes(keep exactly those): nodes, edges, connected, bidirectional
+//!   edgesfor m<i>              topology().edges_for(m<i>)
+//! Transcript answers:
+//!   nodes=m0,m1 edges=m0:g1>m1:g4;… conn=<0|1> bidi=<0|1>      (an edge is from-node:start-gate > to-node:end-gate)
+//!   dijkstra … -> m2=m1:g1>m0:g3;…|none                          (sorted by module)
+//!   panic                                                         (the call panicked)
 use crate::rng::Rng;
 use crate::util::{cases, guarded, hval};
+use des::net::topology::Edge;
+use des::prelude::*;
+use std::collections::HashMap;
+use std::fmt::Write;
 
-pub fn gen(_seed: u64, _count: usize, _thorough: bool) -> String {
-    String::new()
+struct Dummy;
+impl Module for Dummy {}
+
+type Rev = HashMap<(String, String, usize), String>;
+
+fn gname(rev: &Rev, g: &GateRef) -> String {
+    rev.get(&(g.owner().path().as_str().to_string(), g.name().to_string(), g.pos()))
+        .cloned()
+        .unwrap_or_else(|| "?".to_string())
 }
 
-pub fn exec(_input: &str) -> String {
-    String::new()
+fn edge_str<N, C>(rev: &Rev, e: &Edge<'_, N, C>) -> String {
+    format!(
+        "{}:{}>{}:{}",
+        e.from.module().path().as_str(),
+        gname(rev, &e.from.gate()),
+        e.to.module().path().as_str(),
+        gname(rev, &e.to.gate())
+    )
+}
+
+fn list_or(e: &str, v: Vec<String>, sep: &str) -> String {
+    if v.is_empty() {
+        e.to_string()
+    } else {
+        v.join(sep)
+    }
+}
+
+fn describe(rev: &Rev, t: &Topology<(), ()>) -> String {
+    let nodes: Vec<String> = t.nodes().iter().map(|n| n.module().path().as_str().to_string()).collect();
+    let edges: Vec<String> = t.edges().map(|e| edge_str(rev, &e)).collect();
+    format!(
+        "nodes={} edges={} conn={} bidi={}",
+        list_or("none", nodes, ","),
+        list_or("none", edges, ";"),
+        t.connected() as u8,
+        t.bidirectional() as u8
+    )
+}
+
+fn mod_index(m: &str) -> u64 {
+    m.trim_start_matches('m').parse().unwrap_or(u64::MAX)
+}
+
+fn dijkstra_str(rev: &Rev, t: &Topology<(), ()>, src: &str) -> String {
+    let map = t.dijkstra(src);
+    let mut v: Vec<(u64, String)> = map
+        .iter()
+        .map(|(k, e)| (mod_index(k.as_str()), format!("{}={}", k.as_str(), edge_str(rev, e))))
+        .collect();
+    v.sort();
+    list_or("none", v.into_iter().map(|x| x.1).collect(), ";")
+}
+
+fn run_case(header: &str, body: &[String], out: &mut String) {
+    writeln!(out, "{header}").unwrap();
+    if std::env::var("HX_PANIC_MSG").is_err() {
+        std::panic::set_hook(Box::new(|_| {}));
+    }
+    let mut sim = Sim::new(());
+    let mut mods: Vec<String> = Vec::new();
+    let mut gates: HashMap<String, GateRef> = HashMap::new();
+    let mut rev: Rev = HashMap::new();
+    let mut poisoned = false;
+    for line in body {
+        let tok: Vec<&str> = line.split_whitespace().collect();
+        let ans: Option<String> = match tok.as_slice() {
+            ["mod", m] => {
+                if mods.contains(&m.to_string()) {
+                    None
+                } else if guarded(|| sim.node(*m, Dummy)).is_ok() {
+                    mods.push(m.to_string());
+                    Some("ok".into())
+                } else {
+                    None
+                }
+            }
+            ["gate", g, rest @ ..] => {
+                let l = rest.join(" ");
+                match hval(&l, "mod") {
+                    Some(m) if mods.contains(&m) && !gates.contains_key(*g) => {
+                        match guarded(|| sim.gate(m.as_str(), g)) {
+                            Ok(gr) => {
+                                rev.insert((m.clone(), gr.name().to_string(), gr.pos()), g.to_string());
+                                gates.insert(g.to_string(), gr);
+                                Some("ok".into())
+                            }
+                            Err(_) => None,
+                        }
+                    }
+                    _ => None,
+                }
+            }
+            ["connect", a, b] => match (gates.get(*a).cloned(), gates.get(*b).cloned()) {
+                (Some(ga), Some(gb)) if !poisoned => {
+                    let r = guarded(move || ga.connect(gb, None));
+                    if r.is_err() && a != b {
+                        // panic while both gate mutexes are held: the gates are unusable afterwards
+                        poisoned = true;
+                    }
+                    Some(if r.is_ok() { "ok".into() } else { "panic".into() })
+                }
+                _ => None,
+            },
+            _ if poisoned => None,
+            ["topo"] => Some(guarded(|| describe(&rev, &sim.globals().topology())).unwrap_or_else(|_| "panic".into())),
+            ["spanned", m] if mods.contains(&m.to_string()) => Some(
+                guarded(|| {
+                    let root = sim.get(&(*m).into()).expect("module");
+                    describe(&rev, &Topology::spanned(root))
+                })
+                .unwrap_or_else(|_| "panic".into()),
+            ),
+            ["dijkstra", m] if mods.contains(&m.to_string()) => {
+                Some(guarded(|| dijkstra_str(&rev, &sim.globals().topology(), m)).unwrap_or_else(|_| "panic".into()))
+            }
+            ["sdijkstra", r, m] if mods.contains(&r.to_string()) && mods.contains(&m.to_string()) => Some(
+                guarded(|| {
+                    let root = sim.get(&(*r).into()).expect("module");
+                    dijkstra_str(&rev, &Topology::spanned(root), m)
+                })
+                .unwrap_or_else(|_| "panic".into()),
+            ),
+            ["filter", keep] => {
+                let keep: Vec<String> = if *keep == "none" { vec![] } else { keep.split(',').map(|s| s.to_string()).collect() };
+                Some(
+                    guarded(|| {
+                        let mut t = sim.globals().topology();
+                        t.filter_nodes(|n| keep.contains(&n.module().path().as_str().to_string()));
+                        describe(&rev, &t)
+                    })
+                    .unwrap_or_else(|_| "panic".into()),
+                )
+            }
+            ["edgesfor", m] => Some(
+                guarded(|| {
+                    let t = sim.globals().topology();
+                    let v: Vec<String> = t.edges_for(*m).map(|e| edge_str(&rev, &e)).collect();
+                    list_or("none", v, ";")
+                })
+                .unwrap_or_else(|_| "panic".into()),
+            ),
+            _ => None,
+        };
+        if let Some(a) = ans {
+            writeln!(out, "{line} -> {a}").unwrap();
+        }
+    }
+    let r = guarded(move || drop(sim));
+    writeln!(out, "end{}", if r.is_err() { " drop-panic" } else { "" }).unwrap();
+}
+
+pub fn exec(input: &str) -> String {
+    let mut out = String::new();
+    for (header, body) in cases(input) {
+        run_case(&header, &body, &mut out);
+    }
+    out
+}
+
+pub fn gen(seed: u64, count: usize, thorough: bool) -> String {
+    let mut r = Rng::new(seed);
+    let mut out = String::new();
+    for k in 0..count {
+        let nmods = r.range(1, if thorough { 9 } else { 7 }) as usize;
+        let shape = r.below(6);
+        writeln!(out, "case {k} shape={shape}").unwrap();
+        for m in 0..nmods {
+            writeln!(out, "mod m{m}").unwrap();
+        }
+        // module pairs to link
+        let mut pairs: Vec<(usize, usize)> = Vec::new();
+        match shape {
+            0 => {
+                // tree: every module hangs off an earlier one
+                for m in 1..nmods {
+                    pairs.push((r.below(m as u64) as usize, m));
+                }
+            }
+            1 => {
+                // star
+                let c = r.below(nmods as u64) as usize;
+                for m in 0..nmods {
+                    if m != c {
+                        pairs.push((c, m));
+                    }
+                }
+            }
+            2 => {
+                // ring (+ chords)
+                for m in 0..nmods {
+                    pairs.push((m, (m + 1) % nmods));
+                }
+                for _ in 0..r.below(3) {
+                    pairs.push((r.below(nmods as u64) as usize, r.below(nmods as u64) as usize));
+                }
+            }
+            3 => {
+                // two components
+                let cut = r.range(1, nmods as u64) as usize;
+                for m in 1..cut {
+                    pairs.push((r.below(m as u64) as usize, m));
+                }
+                for m in cut + 1..nmods {
+                    pairs.push((r.range(cut as u64, m as u64 - 1) as usize, m));
+                }
+                for _ in 0..r.below(3) {
+                    let a = r.below(cut as u64) as usize;
+                    let b = r.below(cut as u64) as usize;
+                    pairs.push((a, b));
+                }
+            }
+            _ => {
+                // random multigraph (self loops and parallel links included)
+                for _ in 0..r.below(2 * nmods as u64 + 2) {
+                    pairs.push((r.below(nmods as u64) as usize, r.below(nmods as u64) as usize));
+                }
+            }
+        }
+        for i in (1..pairs.len()).rev() {
+            let j = r.below(i as u64 + 1) as usize;
+            pairs.swap(i, j);
+        }
+        let mut g = 0usize;
+        for (a, b) in pairs {
+            // a chain from a gate on `a` to a gate on `b` through 0.. transit gates on arbitrary modules
+            let transit = match r.below(10) {
+                0..=5 => 0,
+                6 | 7 => r.range(1, 3),
+                8 => r.range(4, 9),
+                _ => 15, // 16 hops: the longest chain from_modules follows
+            } as usize;
+            let (x, y) = if r.chance(1, 2) { (a, b) } else { (b, a) };
+            let mut chain = Vec::new();
+            writeln!(out, "gate g{g} mod=m{x}").unwrap();
+            chain.push(g);
+            g += 1;
+            for _ in 0..transit {
+                writeln!(out, "gate g{g} mod=m{}", r.below(nmods as u64)).unwrap();
+                chain.push(g);
+                g += 1;
+            }
+            writeln!(out, "gate g{g} mod=m{y}").unwrap();
+            chain.push(g);
+            g += 1;
+            let mut links: Vec<(usize, usize)> = chain.windows(2).map(|w| if r.chance(1, 2) { (w[0], w[1]) } else { (w[1], w[0]) }).collect();
+            for i in (1..links.len()).rev() {
+                let j = r.below(i as u64 + 1) as usize;
+                links.swap(i, j);
+            }
+            for (p, q) in links {
+                writeln!(out, "connect g{p} g{q}").unwrap();
+            }
+            if r.chance(1, 10) {
+                // a standalone gate somewhere
+                writeln!(out, "gate g{g} mod=m{}", r.below(nmods as u64)).unwrap();
+                g += 1;
+            }
+        }
+        writeln!(out, "topo").unwrap();
+        for m in 0..nmods {
+            if nmods <= 4 || r.chance(2, 3) {
+                writeln!(out, "spanned m{m}").unwrap();
+            }
+            if r.chance(1, 2) {
+                writeln!(out, "dijkstra m{m}").unwrap();
+            }
+            if r.chance(1, 3) {
+                writeln!(out, "sdijkstra m{} m{m}", r.below(nmods as u64)).unwrap();
+            }
+            if r.chance(1, 4) {
+                writeln!(out, "edgesfor m{m}").unwrap();
+            }
+        }
+        for _ in 0..r.range(1, 3) {
+            let keep: Vec<String> = (0..nmods).filter(|_| r.chance(2, 3)).map(|m| format!("m{m}")).collect();
+            writeln!(out, "filter {}", if keep.is_empty() { "none".to_string() } else { keep.join(",") }).unwrap();
+        }
+        writeln!(out, "end").unwrap();
+    }
+    out
 }
